@@ -479,6 +479,8 @@ impl CtlKind for K3 {
 
 pub struct HCtl<K> {
     pub gid: usize,
+    /// builder index of the inner dispatcher (event field `d`)
+    pub inner_b: usize,
     pub n: usize,
     pub t: u8,
     pub ctx: Arc<Ctx>,
@@ -486,6 +488,7 @@ pub struct HCtl<K> {
 }
 
 fn inner_dispatches(ctx: &Arc<Ctx>, gid: usize, n: usize, world: &World, dispatcher: &mut Dispatcher) {
+    // `gid` here is the builder index of the inner dispatcher
     let logx = ctx.log_exec.load(Ordering::Relaxed);
     for _ in 0..n {
         if logx {
@@ -523,7 +526,7 @@ impl<'a, 'b, 'c, K: CtlKind> BatchController<'a, 'b, 'c> for HCtl<K> {
         if logx {
             ctx.ev(json!({"ev":"ctl","s":self.gid,"nv":nv,"seen":seen}));
         }
-        inner_dispatches(&ctx, self.gid, self.n, world, dispatcher);
+        inner_dispatches(&ctx, self.inner_b, self.n, world, dispatcher);
         if logx {
             ctx.ev(json!({"ev":"finish","s":self.gid,"nv":[],"seen":[]}));
         }
